@@ -1,0 +1,69 @@
+//! Verification hooks (only compiled with the `verif` feature).
+//!
+//! A *crash point* is a call placed immediately before a durable effect (an sqlite write or a
+//! transaction commit). A harness can arm the n-th crash point reached by the current thread, in
+//! which case the call unwinds with a [CrashMarker] payload (the in-process equivalent of the
+//! process being killed right before the write), or, for real binaries, set `VERIF_CRASH_AT=n`
+//! to abort the whole process at the n-th crash point reached process-wide.
+
+use std::cell::Cell;
+use std::sync::atomic::{AtomicU64, Ordering};
+use std::sync::OnceLock;
+
+/// Payload of the unwind started by an armed crash point.
+#[derive(Debug, Clone, Copy)]
+pub struct CrashMarker {
+    pub site: &'static str,
+    pub index: u64,
+}
+
+thread_local! {
+    static COUNT: Cell<u64> = const { Cell::new(0) };
+    static ARMED: Cell<Option<u64>> = const { Cell::new(None) };
+    static LAST_SITE: Cell<&'static str> = const { Cell::new("") };
+}
+
+static PROCESS_COUNT: AtomicU64 = AtomicU64::new(0);
+static PROCESS_ARMED: OnceLock<Option<u64>> = OnceLock::new();
+
+/// Resets the per-thread crash point counter and arms the `n`-th crash point (0-based), if any.
+pub fn arm(n: Option<u64>) {
+    COUNT.with(|c| c.set(0));
+    ARMED.with(|a| a.set(n));
+}
+
+/// Number of crash points reached by this thread since the last [arm].
+pub fn count() -> u64 {
+    COUNT.with(|c| c.get())
+}
+
+/// Site of the last crash point reached by this thread.
+pub fn last_site() -> &'static str {
+    LAST_SITE.with(|s| s.get())
+}
+
+/// Marks a point right before a durable effect.
+pub fn crash_point(site: &'static str) {
+    let idx = COUNT.with(|c| {
+        let v = c.get();
+        c.set(v + 1);
+        v
+    });
+    LAST_SITE.with(|s| s.set(site));
+    if ARMED.with(|a| a.get()) == Some(idx) {
+        ARMED.with(|a| a.set(None));
+        std::panic::panic_any(CrashMarker { site, index: idx });
+    }
+
+    let process_armed = PROCESS_ARMED.get_or_init(|| {
+        std::env::var("VERIF_CRASH_AT")
+            .ok()
+            .and_then(|v| v.parse::<u64>().ok())
+    });
+    if let Some(n) = process_armed {
+        if PROCESS_COUNT.fetch_add(1, Ordering::SeqCst) == *n {
+            eprintln!("VERIF_CRASH_AT reached at {site}");
+            std::process::abort();
+        }
+    }
+}
